@@ -254,18 +254,41 @@ func (w *Worker) intrinsic(s *State, f *Frame, name string, fn *ssa.Function, ar
 			return adv(lc)
 		case "Tid":
 			return adv(BV(64, uint64(s.cur)))
-		case "Guard":
-			vp := args[0].(Iface).v.(Ptr)
+		case "Guard", "GuardObj":
+			// Guard(&variable, mutex, name): the variable's cell; GuardObj(x, mutex, name): the object x refers to
 			mp := args[1].(Iface).v.(Ptr)
-			s.ghost[fmt.Sprintf("guard/%d", vp.id)] = Tuple{mp.key(), args[2].(string)}
-			return adv(nil)
-		case "GuardObj": // guard the object a map/pointer variable currently refers to
-			mp := args[1].(Iface).v.(Ptr)
+			isRW := BV(64, 0)
+			if strings.Contains(fmt.Sprint(args[1].(Iface).t), "RWMutex") {
+				isRW = BV(64, 1)
+			}
+			id := 0
 			switch x := args[0].(Iface).v.(type) {
-			case MapRef:
-				s.ghost[fmt.Sprintf("guard/%d", x.id)] = Tuple{mp.key(), args[2].(string)}
 			case Ptr:
-				s.ghost[fmt.Sprintf("guard/%d", x.id)] = Tuple{mp.key(), args[2].(string)}
+				id = x.id
+			case MapRef:
+				id = x.id
+			case SliceV:
+				id = x.arr.id
+			}
+			if id != 0 {
+				s.ghost[fmt.Sprintf("guard/%d", id)] = Tuple{mp.key(), args[2].(string), mp, isRW}
+			}
+			return adv(nil)
+		case "LockFree": // no goroutine holds the mutex (any mode)
+			mp := args[0].(Iface).v.(Ptr)
+			if strings.Contains(fmt.Sprint(args[0].(Iface).t), "RWMutex") {
+				return adv(Bool(ghostInt(s, "wheld/"+mp.key()) == 0 && ghostInt(s, "rheld/"+mp.key()) == 0))
+			}
+			st := asTerm(s.load(mp.field(0)))
+			return adv(Bool(st.isConst() && st.val == 0))
+		case "Freeze":
+			switch x := args[0].(Iface).v.(type) {
+			case SliceV:
+				if !x.isNil && x.cap > 0 {
+					s.ghost[fmt.Sprintf("frozen/%d", x.arr.id)] = args[1].(string)
+				}
+			case Ptr:
+				s.ghost[fmt.Sprintf("frozen/%d", x.id)] = args[1].(string)
 			}
 			return adv(nil)
 		case "SetFlag":
